@@ -878,14 +878,28 @@ def cmp_c17(payload, impl, model):
     return None
 
 
+def cmp_c17_whistory(payload, impl, model):
+    if "panic" in impl.split(" ;; "):
+        return viol("an encoder call panicked")
+    a, b = impl.split(" ;; "), model.split(" ;; ")
+    if len(a) != len(b):
+        return mism("model and harness disagree on the number of calls: %s vs %s" % (impl[:100], model[:100]))
+    for i, (x, y) in enumerate(zip(a, b)):
+        if x != y:
+            return viol("call %d on a long-lived encoder (Reset before every call, earlier calls failed in the writer / were rejected / abandoned) ended as '%s'; a fresh encoder ends it as '%s'" % (i + 1, x, y))
+    return None
+
+
 PROPS["C17"] = dict(
     coq="Properties_C17",
-    level_text="Proved in Coq: Reset of the four codec models, transcribed field by field from the Go code (Reuse.v), re-establishes the initial state from any state, so a call on a reused encoder/decoder equals the call on a fresh one over the remaining input (C17_*_reuse); the object-layer models carry nothing from call to call; a decoder call consumes only its own item (appending input changes nothing: dec_run_frame, jdec_run_frame — for JSON only a bare top-level number ending the input needs a terminator, refuted otherwise), hence items written back to back (any items that each decode alone; in particular the encoders' own outputs) are read back one per call, in order (dec_many_concat, dec_many_encoded, jdec_many_concat). Tied to long-lived refmt Marshaller / Unmarshaller / Cloner instances by random histories with failing calls in between and calls through another atlas on the same Go types, each call compared with a fresh instance and with the model.",
+    level_text="Proved in Coq: Reset of the four codec models, transcribed field by field from the Go code (Reuse.v), re-establishes the initial state from any state — including the write error the encoders remember (ReuseFault.v: every call of any history on one long-lived encoder, each call under its own write-fault plan, ends as it does on a fresh encoder; false of a Reset that keeps the remembered error, exhibited as a kernel-checked example: the cbor encoder before the fix of D24) —, so a call on a reused encoder/decoder equals the call on a fresh one over the remaining input (C17_*_reuse); the object-layer models carry nothing from call to call; a decoder call consumes only its own item (appending input changes nothing: dec_run_frame, jdec_run_frame — for JSON only a bare top-level number ending the input needs a terminator, refuted otherwise), hence items written back to back (any items that each decode alone; in particular the encoders' own outputs) are read back one per call, in order (dec_many_concat, dec_many_encoded, jdec_many_concat). Tied to long-lived refmt Marshaller / Unmarshaller / Cloner instances by random histories with failing calls in between and calls through another atlas on the same Go types, each call compared with a fresh instance and with the model.",
     level_note="slab-row reuse inside obj.Marshaller/Unmarshaller is not modelled (fresh machine state per value in the model); the history suite is what pins it. Trusted as in trusted_base. No axioms.",
     rule="histories of 2-6 marshal calls + as many unmarshal calls + clone calls (with failing calls); non-trivial = at least 3 successful calls; distinct by payload",
     trusted_base=_OBJ_TB,
     assumptions=["a failed Unmarshal call may leave the stream mid-item; only calls on intact streams are constrained"],
-    suites=[("history", dict(cmp=cmp_c17, nontrivial=lambda p, i, m: m.count("m:") >= 3, shrink=False,
+    suites=[("whistory", dict(cmp=cmp_c17_whistory, nontrivial=lambda p, i, m: m.count(";;") >= 1 and "err" in m, shrink=False,
+                              what="one cbor / json encoder, Reset before every call, 2-6 calls (valid trees, invalid and abandoned sequences) each under its own write-fault plan (healthy, error / short count / both, once / from then on, at the k-th write); every fault position of fixed documents followed by a healthy call; each call's verdict vs ReuseFault.history / jhistory")),
+            ("history", dict(cmp=cmp_c17, nontrivial=lambda p, i, m: m.count("m:") >= 3, shrink=False,
                              what="one Marshaller writing all items into one stream (failed calls rolled back), one Unmarshaller reading them back one per call plus one call on the exhausted stream, one Cloner with failing calls in between; each compared with fresh instances and the model"))],
 )
 
